@@ -123,6 +123,9 @@ func c10Step(state string, fifo bool, capacity int, o c10Op) (c10Out, string) {
 	switch o.K {
 	case "Push":
 		for _, v := range o.Vals {
+			if v < 0 {
+				break // refused by the rejecting push policy: the batch ends here
+			}
 			m.Push(v)
 		}
 	case "Pop":
@@ -216,8 +219,30 @@ func c10Symbol(sym, L int, next func() int) c10Op {
 		return c10Op{K: "Swap", I: 0, J: last}
 	case 11:
 		return c10Op{K: "Reverse"}
+	case 13:
+		// (sampled and stress programs only) a batch whose middle value a rejecting push policy refuses: negative values
+		// are the ones refused, and they occur in no other op
+		return c10Op{K: "Push", Vals: []int{next(), -next(), next()}}
+	case 14:
+		// (sampled and stress programs only) a batch well beyond any small-batch regime
+		vs := make([]int, 9+next()%6)
+		for i := range vs {
+			vs[i] = next()
+		}
+		return c10Op{K: "Push", Vals: vs}
 	}
 	return c10Op{K: "Reset"}
+}
+
+const c10WideAlphabet = c10Alphabet + 2
+
+// c10ProgSymbol draws from the wide alphabet; the refused-value batch needs the policy.
+func c10ProgSymbol(r *core.Rng, policy bool, L int, next func() int) c10Op {
+	sym := r.Intn(c10WideAlphabet)
+	if sym == 13 && !policy {
+		sym = 1
+	}
+	return c10Symbol(sym, L, next)
 }
 
 func (p c10Prog) build() (stackage.Stack, string) {
@@ -229,7 +254,13 @@ func (p c10Prog) build() (stackage.Stack, string) {
 		s.Push(i)
 	}
 	if p.Policy {
-		s.SetPushPolicy(func(...any) error { return nil }) // the policy-gated append path has its own capacity test
+		// the policy-gated append path has its own capacity test; negative values (symbol 13) are refused
+		s.SetPushPolicy(func(x ...any) error {
+			if n, ok := x[0].(int); ok && n < 0 {
+				return errPolicyRejects
+			}
+			return nil
+		})
 	}
 	s.SetMutex()
 	return s, encodeList(contentOf(s))
@@ -648,7 +679,7 @@ func c10Run(c *core.Ctx, idx int) {
 		for w := 0; w < nw; w++ {
 			var ops []c10Op
 			for i, k := 0, r.Range(1, 3); i < k; i++ {
-				ops = append(ops, c10Symbol(r.Intn(c10Alphabet), L, next))
+				ops = append(ops, c10ProgSymbol(r, p.Policy, L, next))
 			}
 			p.Workers = append(p.Workers, ops)
 		}
@@ -746,6 +777,32 @@ func c10Hammer(c *core.Ctx) {
 			nRep.Add(1)
 			if !s.Replace(tok, 0) {
 				fail("hammer:replace-refused", "Replace(x,0) returned false on a stack that holds at least two values in every sequential order")
+			}
+		})
+	}
+	if capacity == 0 && r.Bool() {
+		// a batcher: one Push of 9..14 fresh values, then as many Pops (each must succeed: the stack never holds fewer
+		// than two values); whatever a big batch does before it takes the lock shows as a lost or duplicated value
+		desc["batcher"] = true
+		run(func(i int) {
+			if i%8 != 0 {
+				return
+			}
+			n := 9 + i%6
+			vals := make([]any, n)
+			tokMu.Lock()
+			for j := range vals {
+				vals[j] = 5000000 + i*16 + j
+				legit[vals[j]] = true
+			}
+			tokMu.Unlock()
+			s.Push(vals...)
+			for j := 0; j < n; j++ {
+				nPop.Add(1)
+				if v, ok := s.Pop(); !ok || v == nil {
+					fail("hammer:pop-refused", fmt.Sprintf("Pop returned (%s,%v) right after a batch of %d values had been pushed", Show(v), ok, n))
+					return
+				}
 			}
 		})
 	}
@@ -847,7 +904,7 @@ func c10Stress(c *core.Ctx) {
 	for w := 0; w < nw; w++ {
 		var ops []c10Op
 		for i, k := 0, r.Range(2, 3+r.Intn(2)); i < k; i++ {
-			ops = append(ops, c10Symbol(r.Intn(c10Alphabet), L, next))
+			ops = append(ops, c10ProgSymbol(r, p.Policy, L, next))
 		}
 		p.Workers = append(p.Workers, ops)
 	}
